@@ -110,6 +110,16 @@ def gen(args):
         c = vcase(H, rng, X, "w%d-%d" % (wid, t), kw, init, n_to, chain=chain, scale=scale)
         c["kind"] = kind
         out.append(c)
+    if wid < (1 if not big else 8):
+        # one LARGE instance per run (several in the thorough tier): anything that depends on the absolute number of active
+        # points (blocking, batching) is invisible on a few dozen points; few selections keep the trace small
+        nl = int(rng.integers(1200, 1700)) if not big else int(rng.integers(1200, 3200))
+        cen = rng.integers(-40, 41, size=(5, 2)) * 8
+        X = cen[rng.integers(0, 5, size=nl)] + rng.integers(-12, 13, size=(nl, 2))
+        ff = [1.0, 0.8, 0.95][wid % 3]         # 1.0: the pruned update runs with every point active
+        c = vcase(H, rng, X, "w%d-large" % wid, {"initialize": 0, "full_fraction": ff, "n_trial_calculation": 1}, [0], int(rng.integers(4, 8)))
+        c["kind"] = "large"
+        out.append(c)
     return out
 
 
